@@ -92,6 +92,8 @@ def constructed_variants(F):
 
 def run(facts, rep, tier):
     F = facts["default"]
+    from engines import eqop
+    eqop(F, rep, ('src/backend/ir/lower/expr.rs', 'src/backend/ir/lower/stmt.rs', 'src/backend/ir/lower/decl.rs', 'src/backend/ir/lower/types.rs', 'src/backend/ir/emit/expressions/mod.rs', 'src/backend/ir/emit/expressions/calls.rs', 'src/backend/ir/emit/expressions/builtins.rs', 'src/backend/ir/emit/expressions/indexing.rs', 'src/backend/ir/emit/expressions/format.rs', 'src/backend/ir/emit/expressions/methods.rs', 'src/backend/ir/emit/statements.rs', 'src/backend/ir/emit/decls.rs', 'src/backend/ir/conversions.rs', 'src/backend/ir/codegen.rs', 'crates/incan_stdlib/src/num.rs', 'crates/incan_stdlib/src/strings.rs', 'crates/incan_stdlib/src/collections.rs', 'crates/incan_stdlib/src/iter.rs'))
     rep.assumptions += [
         "a field never projected in a pass's closure cannot influence its output",
         "rustc nightly MIR describes the program the stable toolchain builds",
